@@ -125,6 +125,52 @@ def mapping(fn, ref):
     return m
 
 
+def _literalish(e):
+    while isinstance(e, dict) and e.get("k") == "Cast" and e.get("c"):
+        e = e["c"][0]
+    if not isinstance(e, dict):
+        return False
+    k = e.get("k")
+    if k in ("Int", "Flt", "Str", "Chr", "Bool", "Null"):
+        return True
+    if k == "Ref" and (e.get("d") == "Enum" or "ev" in e or e.get("n") in ("npos", "nullopt")):
+        return True
+    if k in ("DRef", "ULookup") and e.get("n") in ("npos", "nullopt"):
+        return True
+    if k == "Un" and e.get("op") in ("-", "+") and e.get("c"):
+        return _literalish(e["c"][0])
+    if k in ("MCall", "Call") and (e.get("m") in ("end", "cend", "rend") or (isinstance(e.get("callee"), dict) and e["callee"].get("n") in ("end", "cend", "rend"))):
+        return True
+    if k in ("Ctor", "InitList", "Temp", "Bind"):
+        kids = [a for a in (e.get("a") or e.get("c") or []) if isinstance(a, dict) and a.get("k") != "DefArg"]
+        return len(kids) == 1 and _literalish(kids[0])
+    return False
+
+
+def canonical_equalities(fn):
+    """a == b and b == a are the same test: put the constant-like operand (literal, enumerator, end(), npos) on the right;
+    when both or neither are constant-like, order the operands by their rendering.  Done on the loaded facts so that every
+    rule sees one spelling."""
+    from verif.tree import show
+    n_sw = 0
+    for part in (fn.get("inits"), fn.get("body")):
+        if part is None:
+            continue
+        for n in _walk(part):
+            if n.get("op") not in ("==", "!="):
+                continue
+            key = "c" if n.get("k") == "Bin" else "a" if n.get("k") == "OpCall" else None
+            if key is None or not isinstance(n.get(key), list) or len(n[key]) != 2:
+                continue
+            a, b = n[key]
+            la, lb = _literalish(a), _literalish(b)
+            swap = (la and not lb) or (la == lb and show(a) > show(b))
+            if swap:
+                n[key] = [b, a]
+                n_sw += 1
+    return n_sw
+
+
 def normalise(fn):
     """Rename the locals of `fn` (in place) to the pinned tree's names where the alignment is unambiguous."""
     if os.environ.get("VERIF_REFNAMES_RECORD"):
